@@ -1081,14 +1081,8 @@ func (ex *Exec) enterLoop(fr *Frame, li *loopInfo, st *State) {
 		ex.vc.Oblige("inv-entry", fmt.Sprintf("loop%d/%s", li.ordinal, clauseName(inv, i)), st.pc, g, pos)
 	}
 	ex.frameCheck(st, fmt.Sprintf("loop%d-entry", li.ordinal), "inv-entry", pos)
-	// 2. havoc what the loop may write
-	cells, _ := ex.loopWrites(li)
-	for k := range st.cells {
-		if k.frame == fr.id && cells[k.a] {
-			t := k.a.Type().(*types.Pointer).Elem()
-			st.cells[k] = ex.freshValue("h."+k.a.Comment, t, st.pc)
-		}
-	}
+	// 2. havoc what the loop may write (the allocation counter first: havocked values may refer to
+	// memory allocated by earlier iterations)
 	ws := ex.loopWritesHeap[loopID(fr.fn, li)]
 	var hk []string
 	for _, key := range sortedKeys(ws) {
@@ -1109,6 +1103,13 @@ func (ex *Exec) enterLoop(fr *Frame, li *loopInfo, st *State) {
 			}
 			st.heap[key] = ex.vc.Fresh("Hh."+key, srt)
 			hk = append(hk, key)
+		}
+	}
+	cells, _ := ex.loopWrites(li)
+	for k := range st.cells {
+		if k.frame == fr.id && cells[k.a] {
+			t := k.a.Type().(*types.Pointer).Elem()
+			st.cells[k] = ex.freshValue("h."+k.a.Comment, t, st.pc)
 		}
 	}
 	ex.assumeFrame(st, hk)
